@@ -495,3 +495,88 @@ func PackageVarInit(pkg *packages.Package, v *types.Var) ast.Expr {
 	}
 	return out
 }
+
+// Inert reports whether a statement cannot influence what a function returns or does to
+// program state the rules care about: an assignment to blank of a call-free expression, or
+// a logging / tracing call (log, log/slog, fmt.Print*, testing hooks are not considered).
+func Inert(info *types.Info, s ast.Stmt) bool {
+	switch x := s.(type) {
+	case *ast.EmptyStmt:
+		return true
+	case *ast.AssignStmt:
+		for _, l := range x.Lhs {
+			if id, ok := l.(*ast.Ident); !ok || id.Name != "_" {
+				return false
+			}
+		}
+		for _, r := range x.Rhs {
+			if len(Calls(r, true)) > 0 {
+				return false
+			}
+		}
+		return true
+	case *ast.ExprStmt:
+		call, ok := x.X.(*ast.CallExpr)
+		if !ok {
+			return false
+		}
+		n := CalleeName(info, call)
+		if strings.HasPrefix(n, "log/slog.") || strings.HasPrefix(n, "log.Print") || strings.HasPrefix(n, "fmt.Print") {
+			for _, a := range call.Args {
+				if len(Calls(a, true)) > 0 {
+					// arguments with calls may have effects; conversions and len/cap are calls too, be strict
+					for _, c := range Calls(a, true) {
+						cn := CalleeName(info, c)
+						if tv, isT := info.Types[c.Fun]; isT && tv.IsType() {
+							continue
+						}
+						if cn == "builtin.len" || cn == "builtin.cap" || strings.HasPrefix(cn, "fmt.Sprint") || strings.HasPrefix(cn, "log/slog.") {
+							continue
+						}
+						return false
+					}
+				}
+			}
+			return true
+		}
+	}
+	return false
+}
+
+// SoleReturn returns the single return statement of a body whose other statements are inert.
+func SoleReturn(info *types.Info, body *ast.BlockStmt) *ast.ReturnStmt {
+	var rs *ast.ReturnStmt
+	for i, s := range body.List {
+		if r, ok := s.(*ast.ReturnStmt); ok && i == len(body.List)-1 {
+			rs = r
+			continue
+		}
+		if !Inert(info, s) {
+			return nil
+		}
+	}
+	return rs
+}
+
+// Orient returns the comparison be with the operand satisfying isLeft on the left, turning
+// the comparison round (and its operator) when that operand is on the right.
+func Orient(be *ast.BinaryExpr, isLeft func(e ast.Expr) bool) (x, y ast.Expr, op token.Token, ok bool) {
+	if isLeft(be.X) {
+		return be.X, be.Y, be.Op, true
+	}
+	if !isLeft(be.Y) {
+		return nil, nil, 0, false
+	}
+	op = be.Op
+	switch op {
+	case token.LSS:
+		op = token.GTR
+	case token.GTR:
+		op = token.LSS
+	case token.LEQ:
+		op = token.GEQ
+	case token.GEQ:
+		op = token.LEQ
+	}
+	return be.Y, be.X, op, true
+}
